@@ -92,7 +92,8 @@ func CheckTestOnly(
 
 			case *ast.CompositeLit:
 				// Check type instantiation: TestHelper{...}
-				if v := findTypeLiteralViolation(&context, node); v != nil {
+				// One type expression may use several @testonly types: map[*FakeClock]Golden
+				for _, v := range findTypeLiteralViolation(&context, node) {
 					// Check if this violation should be ignored before marking type as reported
 					if !ignoreSet.Contains(v.Code, v.Pos) {
 						// Types of different packages may share a name: key by package path too
@@ -106,7 +107,8 @@ func CheckTestOnly(
 
 			case *ast.ValueSpec:
 				// Check variable declarations: var x TestHelper
-				if v := findTypeUsageViolation(&context, node.Type, node.Pos()); v != nil {
+				// One type expression may use several @testonly types: map[*FakeClock]Golden
+				for _, v := range findTypeUsageViolation(&context, node.Type, node.Pos()) {
 					// Check if this violation should be ignored before marking type as reported
 					if !ignoreSet.Contains(v.Code, v.Pos) {
 						// Types of different packages may share a name: key by package path too
@@ -123,7 +125,8 @@ func CheckTestOnly(
 					return true
 				}
 				// Check struct fields and function parameters
-				if v := findTypeUsageViolation(&context, node.Type, node.Pos()); v != nil {
+				// One type expression may use several @testonly types: map[*FakeClock]Golden
+				for _, v := range findTypeUsageViolation(&context, node.Type, node.Pos()) {
 					// Check if this violation should be ignored before marking type as reported
 					if !ignoreSet.Contains(v.Code, v.Pos) {
 						// Types of different packages may share a name: key by package path too
@@ -261,48 +264,31 @@ func findFunctionCallViolation(
 }
 
 // findTypeLiteralViolation checks composite literals for @testonly types
-// Returns violation or nil
+// Returns one violation per @testonly type the literal's type uses
 func findTypeLiteralViolation(
 	ctx *testOnlyContext,
 	node *ast.CompositeLit,
-) *TestOnlyViolation {
-	typeInfo := findTestOnlyType(ctx, ctx.pass.TypesInfo.TypeOf(node))
-	if typeInfo == nil {
-		return nil
-	}
-
-	if ctx.testOnlyTypes.Contains(typeInfo.PkgPath, typeInfo.TypeName) {
-		return &TestOnlyViolation{
-			Pos:         node.Pos(),
-			TestOnlyObj: typeInfo.TypeName,
-			ObjPkgPath:  typeInfo.PkgPath,
-			Kind:        annotations.TestOnlyOnType,
-			UsedInFile:  *ctx.fileName,
-			Reason:      fmt.Sprintf("type %s is marked @testonly and can only be used in test files", typeInfo.TypeName),
-			Code:        codes.TestOnlyTypeUsage,
-		}
-	}
-	return nil
+) []*TestOnlyViolation {
+	return typeViolations(ctx, ctx.pass.TypesInfo.TypeOf(node), node.Pos())
 }
 
-// findTypeUsageViolation checks if a type expression uses @testonly type
-// Returns violation or nil
+// findTypeUsageViolation checks if a type expression uses @testonly types
+// Returns one violation per @testonly type the expression uses
 func findTypeUsageViolation(
 	ctx *testOnlyContext,
 	typeExpr ast.Expr,
 	pos token.Pos,
-) *TestOnlyViolation {
+) []*TestOnlyViolation {
 	if typeExpr == nil {
 		return nil
 	}
+	return typeViolations(ctx, ctx.pass.TypesInfo.TypeOf(typeExpr), pos)
+}
 
-	typeInfo := findTestOnlyType(ctx, ctx.pass.TypesInfo.TypeOf(typeExpr))
-	if typeInfo == nil {
-		return nil
-	}
-
-	if ctx.testOnlyTypes.Contains(typeInfo.PkgPath, typeInfo.TypeName) {
-		return &TestOnlyViolation{
+func typeViolations(ctx *testOnlyContext, t types.Type, pos token.Pos) []*TestOnlyViolation {
+	var result []*TestOnlyViolation
+	for _, typeInfo := range findTestOnlyTypes(ctx, t) {
+		result = append(result, &TestOnlyViolation{
 			Pos:         pos,
 			TestOnlyObj: typeInfo.TypeName,
 			ObjPkgPath:  typeInfo.PkgPath,
@@ -310,55 +296,52 @@ func findTypeUsageViolation(
 			UsedInFile:  *ctx.fileName,
 			Reason:      fmt.Sprintf("type %s is marked @testonly and can only be used in test files", typeInfo.TypeName),
 			Code:        codes.TestOnlyTypeUsage,
-		}
+		})
 	}
-	return nil
+	return result
 }
 
-// findTestOnlyType returns the first @testonly type used by t: t itself, or a type it is
-// composed of ([]T, [N]T, *T, map[K]T, chan T, func(T) T). Defined types are not looked into:
-// their own declaration is checked where it stands. Returns the plain type info of t when
-// no @testonly type is found (nil if t is not a named type).
-func findTestOnlyType(ctx *testOnlyContext, t types.Type) *util.TypeInfo {
-	var visit func(t types.Type, depth int) *util.TypeInfo
-	visit = func(t types.Type, depth int) *util.TypeInfo {
+// findTestOnlyTypes returns the @testonly types used by t: t itself, or the types it is
+// composed of ([]T, [N]T, *T, map[K]T, chan T, func(T) T), each once, in order of appearance.
+// Defined types are not looked into: their own declaration is checked where it stands.
+func findTestOnlyTypes(ctx *testOnlyContext, t types.Type) []*util.TypeInfo {
+	var found []*util.TypeInfo
+	seen := make(map[string]bool)
+
+	var visit func(t types.Type, depth int)
+	visit = func(t types.Type, depth int) {
 		if t == nil || depth > 16 {
-			return nil
+			return
 		}
 		switch u := types.Unalias(t).(type) {
 		case *types.Named:
-			if info := util.ExtractTypeInfo(u); info != nil && ctx.testOnlyTypes.Contains(info.PkgPath, info.TypeName) {
-				return info
+			info := util.ExtractTypeInfo(u)
+			if info != nil && ctx.testOnlyTypes.Contains(info.PkgPath, info.TypeName) && !seen[info.PkgPath+"."+info.TypeName] {
+				seen[info.PkgPath+"."+info.TypeName] = true
+				found = append(found, info)
 			}
 		case *types.Pointer:
-			return visit(u.Elem(), depth+1)
+			visit(u.Elem(), depth+1)
 		case *types.Slice:
-			return visit(u.Elem(), depth+1)
+			visit(u.Elem(), depth+1)
 		case *types.Array:
-			return visit(u.Elem(), depth+1)
+			visit(u.Elem(), depth+1)
 		case *types.Chan:
-			return visit(u.Elem(), depth+1)
+			visit(u.Elem(), depth+1)
 		case *types.Map:
-			if info := visit(u.Key(), depth+1); info != nil {
-				return info
-			}
-			return visit(u.Elem(), depth+1)
+			visit(u.Key(), depth+1)
+			visit(u.Elem(), depth+1)
 		case *types.Signature:
 			for _, tuple := range []*types.Tuple{u.Params(), u.Results()} {
 				for i := 0; i < tuple.Len(); i++ {
-					if info := visit(tuple.At(i).Type(), depth+1); info != nil {
-						return info
-					}
+					visit(tuple.At(i).Type(), depth+1)
 				}
 			}
 		}
-		return nil
 	}
 
-	if info := visit(t, 0); info != nil {
-		return info
-	}
-	return util.ExtractTypeInfo(t)
+	visit(t, 0)
+	return found
 }
 
 // isTestFile checks if a file is a test file (ends with _test.go)
